@@ -53,7 +53,7 @@ def worker(k):
                 continue
             fired = {}
             try:
-                props = [own] if own_only else claimed
+                props = [own] if own_only else (os.environ["PROPS"].split() if os.environ.get("PROPS") else claimed)
                 procs = {}
                 for p in props:
                     sd = f"/tmp/seeded_wt_scratch_{os.getpid()}_{k}_{p}"
